@@ -464,6 +464,25 @@ func registerIntrinsics(e *Engine) {
 			}
 		}
 		out := F.UF("KF1600", term.BV(1600), in)
+		if p.H.KFInjective {
+			// collision resistance as an assumption: two sponge states whose permutations agree on
+			// the first 256 bits (the Keccak-256 digest) are the same state
+			p.stubs["assumption: Keccak-f applications that agree on their first 256 output bits have equal inputs (collision resistance of the digest)"] = true
+			seen := false
+			for _, prev := range p.ufApps["kf"] {
+				if prev == in {
+					seen = true
+					break
+				}
+			}
+			if !seen {
+				for _, prev := range p.ufApps["kf"] {
+					po := F.UF("KF1600", term.BV(1600), prev)
+					p.addPC(F.Implies(F.Eq(F.Extract(out, 255, 0), F.Extract(po, 255, 0)), F.Eq(in, prev)))
+				}
+				p.ufApps["kf"] = append(p.ufApps["kf"], in)
+			}
+		}
 		w := 1600 / len(arr.E)
 		for i := range arr.E {
 			p.store(&Ptr{Obj: ptr.Obj, Path: extPath(ptr.Path, Sel{Idx: F.BVConst64(uint64(i), 64)})}, F.Extract(out, w*i+w-1, w*i))
